@@ -209,6 +209,14 @@ with parse_members (fuel : nat) (d : N) (s : bytes) {struct fuel} : option (list
 
 Definition parse_fuel (s : bytes) : nat := 2 * length s + 2.
 
+(* nesting depth of a spelled tree: what the scanner's parse-state stack reaches while reading it *)
+Fixpoint tdepth (t : tjson) : N :=
+  match t with
+  | TArr l => 1 + (fix go (l : list tjson) : N := match l with [] => 0 | x :: r => N.max (tdepth x) (go r) end) l
+  | TObj ms => 1 + (fix go (m : list (bytes * tjson)) : N := match m with [] => 0 | kv :: r => N.max (tdepth (snd kv)) (go r) end) ms
+  | _ => 0
+  end.
+
 (* a whole JSON text: ws value ws, nothing else *)
 Definition parse (s : bytes) : option tjson :=
   match parse_value (parse_fuel s) max_depth s with
